@@ -184,6 +184,43 @@ pub fn large_cases(a: &Args, rep: &mut Report, label: &str, quick: &[usize], tho
     });
 }
 
+/// Medium inputs under non-trivial masks: sizes just above the powers of two 2^10 .. 2^14 (plausible block sizes of a blocked
+/// or chunked loop), Bernoulli masks of several densities, halves, every third, all but one. The regular seeded cases stop at
+/// 200 (quick) / 1000 (thorough) generators and the large inputs rarely draw a mixed mask.
+pub fn medium_cases(a: &Args, rep: &mut Report, label: &str, f: impl Fn(&Case, &mut Report) + Sync) {
+    if a.leg.as_deref().map_or(false, |l| l != "relcheck" && l != "norayon") {
+        return;
+    }
+    let n = if a.tier == "thorough" { 80 } else { 12 };
+    run_parallel(rep, n, budget(a, 300., 2400.), |k, rep| {
+        let szs = [1100usize, 2100, 4200, 8300, 16500];
+        let o = GenOpts {
+            families: &["uniform", "gradient", "uniform"],
+            sizes: &[szs[k as usize % szs.len()]],
+            dims: &[3, 2, 1],
+            mild_box: true,
+            ..Default::default()
+        };
+        let mut c = gen_case(&format!("{label}medium"), &a.tier, a.seed, k, &o);
+        let mut r = Rng::stream(&format!("{label}mediummask"), &[a.seed, k]);
+        let nn = c.n();
+        let kind = k / szs.len() as u64 % 6;
+        let p = [0.5, 0.1, 0.9][r.below(3)];
+        c.mask = Some(match kind {
+            0 | 1 => (0..nn).map(|_| r.chance(p)).collect(),
+            2 => (0..nn).map(|i| i < nn / 2).collect(),
+            3 => (0..nn).map(|i| i >= nn / 2).collect(),
+            4 => (0..nn).map(|i| i % 3 != 0).collect(),
+            _ => {
+                let hole = r.below(nn);
+                (0..nn).map(|i| i != hole).collect()
+            }
+        });
+        f(&c, rep);
+        rep.count("medium_masked_inputs", 1);
+    });
+}
+
 pub fn run(a: &Args, rep: &mut Report) {
     match a.id.as_str() {
         "C01" => c01(a, rep),
@@ -389,10 +426,15 @@ fn one_c01(prop: &str, c: &Case, rep: &mut Report) {
             rep.violations.push(panic_violation(prop, c, &p));
             note_case(rep, c, false);
         }
-        Ok(b) => {
+        Ok(mut b) => {
             let rd = geom::reference(c);
             geom::check_c01(prop, c, &b, &rd, rep);
             rep.count("exact_predicate_calls", b.trace.exact_count);
+            // the tessellation of the direct route, when it is not bitwise the converted one: same oracle
+            if b.other_route() {
+                rep.count("direct_route_differs_judged_separately", 1);
+                geom::check_c01(prop, c, &b, &rd, rep);
+            }
             note_case(rep, c, c.n() >= 2);
         }
     }
@@ -476,9 +518,9 @@ fn one_c02(prop: &str, c: &Case, rep: &mut Report) {
             rep.violations.push(panic_violation(prop, c, &p));
             note_case(rep, c, false);
         }
-        Ok(b) => {
+        Ok(mut b) => {
             // the reference is only needed to judge positivity of a non-positive cell
-            let need_ref = b.v.cells().iter().any(|x| !(x.volume() > 0.));
+            let need_ref = b.v.cells().iter().chain(b.direct.iter().flat_map(|d| d.cells().iter())).any(|x| !(x.volume() > 0.));
             let rd = if need_ref { Some(geom::reference(c)) } else { None };
             geom::check_c02(prop, c, &b, rd.as_ref(), rep);
             // second route: the volume integral evaluated through the integrator
@@ -488,6 +530,11 @@ fn one_c02(prop: &str, c: &Case, rep: &mut Report) {
             let s = scales(c);
             if !((tot - tot2).abs() <= K * s.u * s.vbox * (c.n() as f64)) {
                 rep.violations.push(Violation::new(prop, "c02.routes", format!("sum of VolumeIntegral {tot:e} differs from the sum of stored volumes {tot2:e}"), Some(c), json!({})));
+            }
+            // third route: Voronoi::build itself, when it is not bitwise the tessellation converted from the integrator
+            if b.other_route() {
+                rep.count("direct_route_differs_judged_separately", 1);
+                geom::check_c02(prop, c, &b, rd.as_ref(), rep);
             }
             note_case(rep, c, true);
         }
@@ -508,7 +555,7 @@ fn c02(a: &Args, rep: &mut Report) {
         let c = gen_case("C02", &a.tier, a.seed, k, &o);
         one_c02("C02", &c, rep);
     });
-    large_cases(a, rep, "C02", &[20000, 60000, 60000], &[20000, 60000, 250000, 250000], |c, rep| one_c02("C02", c, rep));
+    large_cases(a, rep, "C02", &[20000, 70000, 70000], &[20000, 70000, 140000, 270000], |c, rep| one_c02("C02", c, rep));
 }
 
 fn one_c03(prop: &str, c: &Case, rep: &mut Report) {
@@ -517,10 +564,14 @@ fn one_c03(prop: &str, c: &Case, rep: &mut Report) {
             rep.violations.push(panic_violation(prop, c, &p));
             note_case(rep, c, false);
         }
-        Ok(b) => {
+        Ok(mut b) => {
             let before = rep.counters.get("face_pairs_checked").copied().unwrap_or(0);
             geom::check_c03(prop, c, &b, rep);
             let after = rep.counters.get("face_pairs_checked").copied().unwrap_or(0);
+            if b.other_route() {
+                rep.count("direct_route_differs_judged_separately", 1);
+                geom::check_c03(prop, c, &b, rep);
+            }
             note_case(rep, c, after > before);
         }
     }
@@ -547,7 +598,7 @@ fn c03(a: &Args, rep: &mut Report) {
         with_random_mask("C03mask", a, k, &mut c, 3);
         one_c03("C03", &c, rep);
     });
-    large_cases(a, rep, "C03", &[20000, 40000], &[20000, 60000, 150000], |c, rep| one_c03("C03", c, rep));
+    large_cases(a, rep, "C03", &[20000, 70000], &[20000, 70000, 150000], |c, rep| one_c03("C03", c, rep));
 }
 
 fn one_c04(prop: &str, c: &Case, rep: &mut Report) {
@@ -558,11 +609,14 @@ fn one_c04(prop: &str, c: &Case, rep: &mut Report) {
         }
         Ok(b) => {
             geom::check_c04(prop, c, &b, &b.v, rep);
-            // the directly built tessellation must satisfy the same identities
-            match guarded(|| build_direct(c)) {
-                Ok(v) => geom::check_c04(prop, c, &b, &v, rep),
-                Err(p) => rep.violations.push(panic_violation(prop, c, &p)),
+            // the directly built tessellation must satisfy the same identities (kept by build_observed when it is not
+            // bitwise the converted one)
+            if let Some(v) = &b.direct {
+                rep.count("direct_route_differs_judged_separately", 1);
+                geom::check_c04(prop, c, &b, v, rep);
             }
+            // the faces that the public conversion primitive appends to caller-owned vectors, after two calls
+            geom::check_c04_face_vectors(prop, c, &b, rep);
             note_case(rep, c, b.vi.cells_iter().next().is_some());
         }
     }
